@@ -294,16 +294,17 @@ def eval_step(rep, v, st, outs, idx, where, detail, st_probes=None):
     if j is None:
         return True, None, obs_tab          # admissible, but not the branch this behaviour follows
     a = v["alts"][j]
-    if a["same"]:
-        if st_probes is not None and idx.get("probes") is not None:
-            pr, pn, rd = st_probes
-            check_probes(rep, where, v["tab"], pr, pn, rd, outs[idx["probes"]], detail)
-    else:
+    if v["probes"] or v["qs"]:
+        # the vector describes the observations in each of its next tables
         if idx.get("probes") is not None:
             check_probes(rep, where, a["obs"]["tab"], v["probes"], probe_names(v["probes"]), a["obs"]["reads"],
                          outs[idx["probes"]], detail)
         if idx.get("pats") is not None:
             check_pats(rep, where, a["obs"]["tab"], v["qs"], a["obs"]["ans"], outs[idx["pats"]], detail)
+    elif a["same"] and st_probes is not None and idx.get("probes") is not None:
+        # the table is unchanged: the observations of the state (for the names the call mentions) still apply
+        pr, pn, rd = st_probes
+        check_probes(rep, where, v["tab"], pr, pn, rd, outs[idx["probes"]], detail)
     return True, j, obs_tab
 
 
@@ -336,19 +337,18 @@ def build_tour(jid, names, st, trs, first):
         pl.add(q_sync(st["tab"]), ("sync", ti))
         idx["op"] = pl.add(q_op(v["act"]), ("op", ti))
         idx["slice"] = pl.add("c43_slice(L).", ("slice", ti))
-        changed = [a for a in v["alts"] if not a["same"]]
-        if changed:
+        if v["probes"] or v["qs"]:
             if v["probes"]:
                 idx["probes"] = pl.add(q_probes(v["probes"]), ("probes", ti))
             if v["qs"]:
                 idx["pats"] = pl.add(q_pats(v["qs"]), ("pats", ti))
-            if len(v["alts"]) == 1:
-                for e in changed[0]["undo"]:
-                    pl.add(q_op("%d,%s,%s" % (e[0], qa(e[1]), qa(e[2]))), ("undo", ti, e))
         else:
             pr = state_probe_sel(st, set(v["ns"]))
             if pr[0]:
                 idx["probes"] = pl.add(q_probes(pr[0]), ("probes", ti))
+        if len(v["alts"]) == 1:
+            for e in v["alts"][0]["undo"]:
+                pl.add(q_op("%d,%s,%s" % (e[0], qa(e[1]), qa(e[2]))), ("undo", ti, e))
         v["_idx"] = idx
     pl.add(q_sync(st["tab"]), ("sync", len(trs)))
     return pl
@@ -417,11 +417,10 @@ def build_walk(jid, names, steps):
         idx = {}
         idx["op"] = pl.add(q_op(v["act"]), ("op", si))
         idx["slice"] = pl.add("c43_slice(L).", ("slice", si))
-        if not v["alts"][0]["same"]:
-            if v["probes"]:
-                idx["probes"] = pl.add(q_probes(v["probes"]), ("probes", si))
-            if v["qs"]:
-                idx["pats"] = pl.add(q_pats(v["qs"]), ("pats", si))
+        if v["probes"]:
+            idx["probes"] = pl.add(q_probes(v["probes"]), ("probes", si))
+        if v["qs"]:
+            idx["pats"] = pl.add(q_pats(v["qs"]), ("pats", si))
         v["_idx"] = idx
     return pl
 
